@@ -39,6 +39,7 @@ def declare(rep):
     rep.rule("R14.2", "mutable-handle inventory: witnesses exist for each; constructors only from exclusive receivers; get_mut callers are handle methods")
     rep.rule("R14.3", "mutable handles invariant in their value-type parameters")
     rep.rule("R14.4", "unsafe impl Send/Sync only for Table, with the P,T: Send / Sync bounds")
+    rep.rule("R14.8", "arena primitives: index/index_mut index the node vector with the given index; get_mut bounds-checks before offsetting by exactly that index")
     rep.rule("R14.7", "a function borrowing a mutable handle returns nothing tied to the handle's own lifetime")
     rep.rule("R14.6", "outside inner.rs the only unsafe operations are the crate's own handle constructors and Table::get_mut")
     rep.rule("R14.5", "get_mut only on the indices of the entry popped in the same step, one per table")
@@ -205,6 +206,8 @@ def run_config(ctx, rep, cfg, F):
         else:
             rep.bad("R14.4", "unsafe impl %s for %s" % (tr, F.short_ty(i["self_ty"])), "bounds", "unsafe impl %s for %s with bounds %s: only Table may carry "
                     "unsafe auto-trait impls, and only with P, T: %s" % (tr, F.short_ty(i["self_ty"]), sorted(preds), tr), config=cfg)
+    # ---- R14.8: the arena primitives the interpreter models
+    C.check_primitives(rep, F, "R14.8", ("get_mut", "index"))
     # ---- R14.7: nothing borrowed from a mutable handle outlives that borrow
     def regions_in(ti, depth=0):
         """regions mentioned in a type: [(region, what)]"""
